@@ -268,6 +268,8 @@ pub fn bin_program(id: u64) -> (String, String) {
         2 | 6 => "module M\n[deprecated(\"use \\\"New\\\" caf\u{e9} \\\\ instead\")] struct Old {}\nstruct S {\n\ta: Old,\n  b: Sequence<Old>\n}\n".to_owned(),
         3 => "module M\n[deprecated] struct Old {}\nstruct S { a: Old, x: tag(1) int32, y: tag(2) int32?, z: tag(2) bool? }\n".to_owned(),
         4 => "module M\nstruct {\n".to_owned(),
+        // non-ASCII text in front of two spans on one line (columns count characters, not bytes)
+        8 => "module M\n/// \u{30c7}\u{30fc}\u{30bf}\u{306e}\u{5b9b}\u{5148} {@link Sink} \u{438} \u{421}\u{43c}\u{43e}\u{442}\u{440}\u{438}\u{442}\u{435} \u{442}\u{430}\u{43a}\u{436}\u{435} {@link Other}\nstruct S {}\n".to_owned(),
         // a compact struct with two fields of the same illegal key type: one error with two notes of the same text
         7 => "module M\ncompact struct K {\n  x: float32\n  y: float32\n}\nstruct U { d: Dictionary<K, bool> }\n".to_owned(),
         _ => "module M\n/// See {@link Missing} and {@link AlsoMissing}.\n/// @param nope: no such parameter\nstruct A { b: B }\nstruct B { a: Sequence<A?> }\n[deprecated] struct Old {}\nstruct U { o: Old }\n".to_owned(),
